@@ -15,12 +15,12 @@ shipped files are loaded with their numeric leaves replaced by solver variables.
 import z3
 
 from .. import symex as sx
-from .. import loaderh, dyn
+from .. import loaderh, dyn, loaded
 
 ID = "C17"
 TECHNIQUE = "symbolic execution of the real ScenarioLoader.load on documents with solver-variable leaves (numbers, name choices, membership and presence bits); acceptance and field-by-field fidelity decided by z3; replay through a real YAML file"
 needs_reach = False
-EXTRA_STUBS = loaderh.EXTRA_STUBS
+EXTRA_STUBS = loaderh.EXTRA_STUBS + dyn.EXTRA_STUBS
 REQUIRED_WITNESSES = ['accepted', 'skeleton_A', 'skeleton_B', 'shipped', 'no_step_limit', 'empty_privescs']
 STUBS = ["nasim.scenarios.utils.load_yaml -> returns the harness' document (PyYAML is used again in the replay, which goes through a real file)",
          "int/float/bool/isinstance/type/min/max/math.isclose -> virtual builtins that keep proxies symbolic"]
@@ -49,10 +49,12 @@ def queries(tier, seed=0):
     from nasim.scenarios.benchmark import AVAIL_STATIC_BENCHMARKS
     for name in AVAIL_STATIC_BENCHMARKS:
         qs.append(dict(kind='shipped', file=name))
-    return qs
+    return qs + loaded.queries()
 
 
 def run(src, q):
+    if q.get('loaded'):
+        return loaded.run(src, q)
     r = dyn.Rec()
     r.q = q
     if q.get('first'):
@@ -75,6 +77,8 @@ def run(src, q):
 
 
 def obligations(r):
+    if r.q.get('loaded'):
+        return loaded.obligations(r)
     obl = loaderh.scenario_obligations(r.sc, r.exp)
     exp = r.exp
     acts = r.actions
@@ -101,6 +105,8 @@ def obligations(r):
 
 
 def witnesses(r):
+    if r.q.get('loaded'):
+        return ['accepted', 'loaded_dynamics']
     out = ['accepted']
     q = r.q
     out.append('shipped' if q['kind'] == 'shipped' else 'skeleton_' + q['skel'])
@@ -112,4 +118,7 @@ def witnesses(r):
 
 
 def describe(r):
+    if r.q.get('loaded'):
+        from . import common
+        return common.describe(r)
     return dict(note="scenario returned by the loader differs from the document")
